@@ -77,12 +77,7 @@ def uninstall(ns, cls, saved):
 
 def reset_buffer_state(cls):
     if hasattr(cls, "_buffer"):
-        cls._buffer.clear()
-        cls._buffered_collections.clear()
-        cls._CURRENT_BUFFER_SIZE = 0
-        cls._buffer_context._count = 0
-        cls._buffer_context._original_buffer_capacitys.clear()
-        cls._buffer_context._buffer_capacity = None
+        reset_buffer_class(cls)
 
 
 FLAVORS = {"FUnbuf": "JSONDict", "FBufOff": "BufferedJSONDict", "FBufOn": "BufferedJSONDict"}
